@@ -480,8 +480,10 @@ class FileCache:
                         valid_entry = False
 
                     if not valid_entry:
-                        # remove the locally stored entry if not valid
-                        os.remove(filepath)
+                        # remove the locally stored entry if not valid (the
+                        # file and the entry, so that a failing re-download
+                        # does not leave an entry without a valid file).
+                        self._remove_item_from_cache(hashkey)
                     else:
                         valid_entry = True
                 else:
